@@ -1752,6 +1752,9 @@ class Engine:
                         st.update(kw)
                     return NativeFn("dict.__init__", dict_init)
                 return NativeFn("object.__init__", lambda *a, **k: None)
+            h = self.policy.get(("super_method", name))       # a method inherited from an external (library) base class, by contract
+            if h is not None:
+                return NativeFn(f"super.{name}", lambda *a, **k: h(self, o.obj, *a, **k))
             raise PyRaise(AttributeError, (name,))
         if is_num(o) or (isinstance(o, (int, float)) and not isinstance(o, bool)):
             h = self.policy.get(("num_method", name))
